@@ -2,6 +2,6 @@ SPECIFICATION DetSpec
 CONSTANTS
   Ks = {1, 2, 3, 7, 50, 1000}
   MaxRep = 3
-INVARIANTS ValidCfgs Functional
+INVARIANTS ValidCfgs NearestFirst Functional
 PROPERTIES ObsStable FirstStays
 CHECK_DEADLOCK FALSE
